@@ -778,7 +778,15 @@ MATCHERS = {'F-multiband-type': is_multiband_type}
 def run(ctx):
     logging.disable(logging.CRITICAL)
     rng = ctx.rng
+    # second tie: re-translate the selection code of gnpy/core/network.py from /repo's source; the equivalence lemmas of
+    # Proofs/SelectGen.v are then re-checked by check_props against what the code says now
+    from . import pygen_c10
+    gen_ok, gen_msg = pygen_c10.regenerate()
     ctx.proof = common.check_props('C10')
+    if not gen_ok:
+        ctx.proof['ok'] = False
+        ctx.proof['log'] = 'harness/pygen_c10.py: ' + gen_msg + '\n' + ctx.proof.get('log', '')
+        ctx.proof['failed_file'] = 'theories/Gen/SelectGen.v (translation of /repo source failed)'
     ctx.rule = ('(A) select_edfa called directly on candidate dicts drawn from random validity-aware libraries (1-12 models: '
                 'variable/fixed gain, OpenROADM, advanced, Raman-flagged, twins with equal NF, aliases, band-limited, '
                 'multiband groupings) x random / near-limit / gridded (gain, power, extended gain, raman_allowed) targets; '
@@ -885,6 +893,9 @@ def run(ctx):
         for r1, part in zip(rec, line.split(';')):
             judge_b(ctx, r1, part, views, roadm_lib)
     ctx.assumptions += [
+        'translator tie: harness/pygen_c10.py (fail-closed Python-ast -> Gallina over Q, on harness/pygen.py: templates for '
+        'filter_edfa_list_based_on_targets, select_edfa, get_node_restrictions, preselect_multiband_amps and the '
+        'raman_allowed statement of set_one_amplifier; translated holes: margins, filters, power reduction, band cover)',
         'the noise figure of every candidate at the required gain is an input of the model, computed with '
         'gnpy.core.network.edfa_nf (the NF model is property C04); -inf (openroadm_booster) is represented by -1e6',
         'multiband nodes: the per band gain/power targets (compute_gain_power_and_tilt_target, C09) are inputs recorded '
